@@ -13,7 +13,8 @@ from ..runner import Part
 PROPERTY = "C05"
 LEVEL = "fault_enumeration"
 RULE = ("histories: every sequence (length <= 3 quick / 4 thorough) of request outcomes {success, success after k "
-        "drops, retries exhausted, rejected after j drops, send error, receive error} followed by a silent request, "
+        "drops, slow in-time success, retries exhausted, rejected after j drops, send error, receive error, late corrupted answer then "
+        "slow success / silence} with 0.4 T gaps between some requests, followed by a silent request, "
         "x {udp-rtu, tcp} x keep-alive x (T, R) grid, with and without a new event loop between requests; plus the entry "
         "points connect/discover/search_inverters over a (timeout, retries) grid for each family; distinct = distinct "
         "(transport, keep-alive, T, R, outcome-class sequence, loop-change flag) tuples and entry-point configurations")
